@@ -269,12 +269,14 @@ BENCH_GATES = {'AND': lambda xs: int(all(xs)), 'OR': lambda xs: int(any(xs)),
                'XOR': lambda xs: sum(xs) % 2, 'NOT': lambda xs: 1 - xs[0], 'BUFF': lambda xs: xs[0]}
 
 
-def check_bench(gate, nin):
-    """one ISCAS gate with nin inputs, all input values; plus a DFF on the output"""
+def check_bench(gate, nin, operands=None):
+    """one ISCAS gate with nin inputs, all input values; plus a DFF on the output.  `operands` lists,
+    per operand position, which input it names (a signal may appear in several positions)"""
     import pyrtl
     ins = ['G%d' % i for i in range(nin)]
+    ops = list(range(nin)) if operands is None else list(operands)
     text = ''.join('INPUT(%s)\n' % i for i in ins) + 'OUTPUT(O)\nOUTPUT(Q)\n' + \
-        'O = %s(%s)\nQ = DFF(O)\n' % (gate, ', '.join(ins))
+        'O = %s(%s)\nQ = DFF(O)\n' % (gate, ', '.join(ins[i] for i in ops))
     pyrtl.reset_working_block()
     try:
         with contextlib.redirect_stdout(io.StringIO()):
@@ -286,7 +288,7 @@ def check_bench(gate, nin):
     prev = 0
     for vals in itertools.product([0, 1], repeat=nin):
         sim.step(dict(zip(ins, vals)))
-        exp = BENCH_GATES[gate](list(vals))
+        exp = BENCH_GATES[gate]([vals[i] for i in ops])
         if sim.inspect('O') != exp or sim.inspect('Q') != prev:
             return dict(failed=True, observed=dict(inputs=vals, O=sim.inspect('O'), Q=sim.inspect('Q')),
                         expected=dict(O=exp, Q=prev), bench=text)
